@@ -67,7 +67,10 @@ def gen_case(ctx, i):
     else:
         maps = pc.gen_maps(r, kind)
     thr = float(THRS[int(r.integers(0, len(THRS)))])
-    return {"i": i, "kind": kind, "thr": thr, "patch": int(r.choice([2, 3, 4, 5, 7])), "maps": maps}
+    f64 = bool(r.random() < 0.15)
+    if f64:  # float64 maps whose top cells differ by less than float32 resolution: only float64 arithmetic finds the true maximum
+        maps = maps.astype(np.float64) + r.integers(0, 7, maps.shape) * 1e-10
+    return {"i": i, "kind": kind, "thr": thr, "patch": int(r.choice([2, 3, 4, 5, 7])), "maps": maps, "f64": f64}
 
 
 def directed(ctx):
@@ -95,8 +98,11 @@ def check(ctx, case):
     import torch
     from sleap_nn.inference import peak_finding as pf
 
-    maps = case["maps"] if isinstance(case["maps"], np.ndarray) else unjson_array(case["maps"], np.float32)
-    maps = np.ascontiguousarray(maps, dtype=np.float32)
+    dt = np.float64 if case.get("f64") else np.float32
+    maps = case["maps"] if isinstance(case["maps"], np.ndarray) else unjson_array(case["maps"], dt)
+    maps = np.ascontiguousarray(maps, dtype=dt)
+    if case.get("f64"):
+        ctx.count("float64_cases")
     S, C, H, W = maps.shape
     thr, patch = case["thr"], case["patch"]
     small = dict(case)
